@@ -44,6 +44,17 @@ func unboxGuard(fn *ssa.Function) ([]string, bool) {
 		if r0 == r1 {
 			continue
 		}
+		// the value compared must be the optional-unwrapped target (UnwrapOptionalType(target)), not the raw target:
+		// `T?` with T a top type has to keep optionals as well
+		unwrapped := false
+		for _, side := range []ssa.Value{bo.X, bo.Y} {
+			if strings.Contains(core.OriginLeavesVia(side), "via:UnwrapOptionalType") {
+				unwrapped = true
+			}
+		}
+		if !unwrapped {
+			set["(raw target compared at "+fn.Prog.Fset.Position(bo.Pos()).String()[strings.LastIndex(fn.Prog.Fset.Position(bo.Pos()).String(), "/")+1:]+")"] = true
+		}
 		for _, side := range []ssa.Value{bo.X, bo.Y} {
 			v := core.Unwrap(side)
 			switch x := v.(type) {
